@@ -186,6 +186,8 @@ class AsyncSimpleClient:
             except asyncio.TimeoutError:  # pragma: no cover
                 raise TimeoutError()
             if not self.connected:
+                if self.input_buffer:
+                    break
                 raise DisconnectedError()
             try:
                 await asyncio.wait_for(self.input_event.wait(),
